@@ -540,49 +540,288 @@ func (E *Engine) verifyFunc(key string) *FuncResult {
 }
 
 // nondeterminism: a syntactic reason why the result of fn might not be a function of its
-// arguments and the heap it is given ("" if none): map iteration, goroutines, select, channel
-// operations, reads of mutable package-level variables, calls outside the modelled library.
+// arguments and the heap it is given ("" if none):
+//   - iteration over a map, unless the loop body only copies the entries into another map;
+//   - goroutines, select, channel operations;
+//   - reads of package-level variables that some function other than a package initialiser or an
+//     initialise-once function (one that is only ever handed to (*sync.Once).Do, has no parameters and
+//     captures nothing) writes; writes to package-level variables outside such functions;
+//   - calls into packages outside the module that are not on the list of deterministic library
+//     packages; maps.Keys/Values unless the result is sorted before any other use.
 func (E *Engine) nondeterminism(fn *ssa.Function) string {
 	fs := []*ssa.Function{fn}
 	for f := range E.reach(fn) {
 		fs = append(fs, f)
 	}
 	sort.Slice(fs, func(i, j int) bool { return funcKey(fs[i]) < funcKey(fs[j]) })
+	once := E.onceFuncs()
 	for _, f := range fs {
 		for _, b := range f.Blocks {
 			for _, in := range b.Instrs {
 				switch in := in.(type) {
 				case *ssa.Range:
-					if _, ok := in.X.Type().Underlying().(*types.Map); ok {
-						return fmt.Sprintf("%s ranges over a map at %s", funcKey(f), E.P.Fset.Position(in.Pos()))
+					if _, ok := in.X.Type().Underlying().(*types.Map); ok && !isMapCopyLoop(in) {
+						return fmt.Sprintf("%s ranges over a map at %s (iteration order is unspecified and the loop does more than copy entries into another map)", funcKey(f), E.P.Fset.Position(in.Pos()))
 					}
 				case *ssa.Go, *ssa.Select, *ssa.Send:
 					return fmt.Sprintf("%s uses concurrency at %s", funcKey(f), E.P.Fset.Position(in.Pos()))
 				case *ssa.UnOp:
-					if g, ok := in.X.(*ssa.Global); ok && in.Op == token.MUL {
-						if strings.HasPrefix(g.Pkg.Pkg.Path(), modPath) {
-							if _, isMap := g.Type().(*types.Pointer).Elem().Underlying().(*types.Map); isMap && E.globalMapEntries(g) != nil && !E.globalWritten(g) {
-								continue
-							}
-							return fmt.Sprintf("%s reads package variable %s at %s", funcKey(f), g.Name(), E.P.Fset.Position(in.Pos()))
+					if in.Op != token.MUL {
+						continue
+					}
+					if g := rootGlobal(in.X); g != nil && g.Pkg != nil && strings.HasPrefix(g.Pkg.Pkg.Path(), modPath) {
+						if w := E.globalWriter(g, once); w != "" {
+							return fmt.Sprintf("%s reads package variable %s at %s, which %s writes", funcKey(f), g.Name(), E.P.Fset.Position(in.Pos()), w)
 						}
 					}
 				case *ssa.Store:
-					if g, ok := in.Addr.(*ssa.Global); ok {
-						return fmt.Sprintf("%s writes package variable %s", funcKey(f), g.Name())
+					if g := rootGlobal(in.Addr); g != nil && !once[f] && !(f.Name() == "init" && f.Signature.Recv() == nil) {
+						return fmt.Sprintf("%s writes package variable %s at %s", funcKey(f), g.Name(), E.P.Fset.Position(in.Pos()))
+					}
+				case *ssa.MapUpdate:
+					if u, ok := in.Map.(*ssa.UnOp); ok {
+						if g := rootGlobal(u.X); g != nil && !once[f] && !(f.Name() == "init" && f.Signature.Recv() == nil) {
+							return fmt.Sprintf("%s updates package-level map %s at %s", funcKey(f), g.Name(), E.P.Fset.Position(in.Pos()))
+						}
 					}
 				case ssa.CallInstruction:
 					c := in.Common()
-					if sc := c.StaticCallee(); sc != nil && !strings.HasPrefix(calleePkgPath(sc), modPath) {
-						if findLibModel(funcKey(sc)) == nil {
-							return fmt.Sprintf("%s calls %s, which has no model", funcKey(f), funcKey(sc))
+					sc := c.StaticCallee()
+					if sc == nil || strings.HasPrefix(calleePkgPath(sc), modPath) {
+						continue
+					}
+					key := funcKey(sc)
+					if i := strings.Index(key, "["); i > 0 {
+						key = key[:i]
+					}
+					switch key {
+					case "golang.org/x/exp/maps.Keys", "golang.org/x/exp/maps.Values", "maps.Keys", "maps.Values":
+						v, _ := in.(ssa.Value)
+						if v == nil || !sortedBeforeUse(v) {
+							return fmt.Sprintf("%s uses the keys of a map in iteration order at %s (not sorted before use)", funcKey(f), E.P.Fset.Position(in.Pos()))
 						}
+						continue
+					case "sync.(*Once).Do":
+						continue
+					}
+					if !deterministicLibrary(calleePkgPath(sc)) {
+						return fmt.Sprintf("%s calls %s at %s, which is not on the list of deterministic library functions", funcKey(f), funcKey(sc), E.P.Fset.Position(in.Pos()))
 					}
 				}
 			}
 		}
 	}
 	return ""
+}
+
+func deterministicLibrary(pkg string) bool {
+	switch pkg {
+	case "strconv", "strings", "unicode", "unicode/utf8", "errors", "fmt", "slices", "sort", "bytes", "math", "maps", "golang.org/x/exp/maps", "cmp":
+		return true
+	}
+	return false
+}
+
+// rootGlobal: the package-level variable an address is derived from (through field and index selections), or nil.
+func rootGlobal(v ssa.Value) *ssa.Global {
+	for {
+		switch a := v.(type) {
+		case *ssa.Global:
+			return a
+		case *ssa.FieldAddr:
+			v = a.X
+		case *ssa.IndexAddr:
+			v = a.X
+		default:
+			return nil
+		}
+	}
+}
+
+// onceFuncs: functions whose only use is as the argument of (*sync.Once).Do and which take no input
+// (no parameters, no captured variables): they run at most once, before any reader that calls Do first.
+func (E *Engine) onceFuncs() map[*ssa.Function]bool {
+	cand := map[*ssa.Function]bool{}
+	other := map[*ssa.Function]bool{}
+	for _, f := range E.P.Funcs {
+		for _, b := range f.Blocks {
+			for _, in := range b.Instrs {
+				if _, dbg := in.(*ssa.DebugRef); dbg {
+					continue
+				}
+				var isDo bool
+				var ci ssa.CallInstruction
+				if c, ok := in.(ssa.CallInstruction); ok {
+					ci = c
+					if sc := c.Common().StaticCallee(); sc != nil && funcKey(sc) == "sync.(*Once).Do" {
+						isDo = true
+					}
+				}
+				for _, op := range in.Operands(nil) {
+					if op == nil || *op == nil {
+						continue
+					}
+					var fn *ssa.Function
+					switch v := (*op).(type) {
+					case *ssa.Function:
+						fn = v
+					case *ssa.MakeClosure:
+						fn, _ = v.Fn.(*ssa.Function)
+						if len(v.Bindings) > 0 {
+							other[fn] = true
+						}
+					}
+					if fn == nil {
+						continue
+					}
+					if isDo && ci != nil && len(ci.Common().Args) == 2 && ci.Common().Args[1] == *op {
+						cand[fn] = true
+					} else if _, isMC := in.(*ssa.MakeClosure); !isMC && !(ci != nil && ci.Common().Value == *op) {
+						other[fn] = true
+					} else if ci != nil && ci.Common().Value == *op {
+						other[fn] = true // called directly
+					}
+				}
+			}
+		}
+	}
+	out := map[*ssa.Function]bool{}
+	for f := range cand {
+		if !other[f] && len(f.Params) == 0 && len(f.FreeVars) == 0 {
+			out[f] = true
+		}
+	}
+	return out
+}
+
+// globalWriter: a function, other than package initialisers and initialise-once functions, that stores to
+// (a part of) g or updates the map it holds; "" if there is none.
+func (E *Engine) globalWriter(g *ssa.Global, once map[*ssa.Function]bool) string {
+	for _, f := range E.P.Funcs {
+		if (f.Name() == "init" && f.Signature.Recv() == nil) || once[f] {
+			continue
+		}
+		for _, b := range f.Blocks {
+			for _, in := range b.Instrs {
+				switch in := in.(type) {
+				case *ssa.Store:
+					if rootGlobal(in.Addr) == g {
+						return funcKey(f)
+					}
+				case *ssa.MapUpdate:
+					if u, ok := in.Map.(*ssa.UnOp); ok && rootGlobal(u.X) == g {
+						return funcKey(f)
+					}
+				}
+			}
+		}
+	}
+	return ""
+}
+
+// isMapCopyLoop: the body of `for k, v := range m` does nothing but store the entries into another map
+// (m2[k] = v): its effect does not depend on the iteration order.
+func isMapCopyLoop(r *ssa.Range) bool {
+	var next *ssa.Next
+	for _, ref := range *r.Referrers() {
+		if n, ok := ref.(*ssa.Next); ok {
+			if next != nil {
+				return false
+			}
+			next = n
+		}
+	}
+	if next == nil {
+		return false
+	}
+	head := next.Block()
+	var ifi *ssa.If
+	if len(head.Instrs) > 0 {
+		ifi, _ = head.Instrs[len(head.Instrs)-1].(*ssa.If)
+	}
+	if ifi == nil || len(head.Succs) != 2 {
+		return false
+	}
+	// the body: blocks reachable from the continue-branch without passing through the head
+	seen := map[*ssa.BasicBlock]bool{head: true}
+	work := []*ssa.BasicBlock{head.Succs[0]}
+	for len(work) > 0 {
+		b := work[len(work)-1]
+		work = work[:len(work)-1]
+		if seen[b] {
+			continue
+		}
+		seen[b] = true
+		for _, in := range b.Instrs {
+			switch in := in.(type) {
+			case *ssa.Extract, *ssa.MapUpdate, *ssa.Jump, *ssa.If, *ssa.Phi, *ssa.DebugRef:
+			case *ssa.UnOp:
+				if in.Op != token.MUL {
+					return false
+				}
+			default:
+				return false
+			}
+		}
+		work = append(work, b.Succs...)
+	}
+	for _, in := range head.Instrs {
+		switch in.(type) {
+		case *ssa.Next, *ssa.Extract, *ssa.If, *ssa.Phi, *ssa.DebugRef:
+		default:
+			return false
+		}
+	}
+	return true
+}
+
+// sortedBeforeUse: every use of the value (other than debug references) is a call that sorts it in place,
+// or comes after such a call in the same block.
+func sortedBeforeUse(v ssa.Value) bool {
+	refs := v.Referrers()
+	if refs == nil {
+		return false
+	}
+	var sortCall ssa.Instruction
+	for _, r := range *refs {
+		if c, ok := r.(ssa.CallInstruction); ok {
+			if sc := c.Common().StaticCallee(); sc != nil {
+				k := funcKey(sc)
+				if i := strings.Index(k, "["); i > 0 {
+					k = k[:i]
+				}
+				if k == "slices.Sort" || k == "sort.Strings" || k == "golang.org/x/exp/slices.Sort" {
+					sortCall = r
+					break
+				}
+			}
+		}
+	}
+	if sortCall == nil {
+		return false
+	}
+	// the sort must be the first non-debug use in program order within its block, and all other uses in
+	// the same block after it or in blocks it dominates
+	sb := sortCall.Block()
+	idx := map[ssa.Instruction]int{}
+	for i, in := range sb.Instrs {
+		idx[in] = i
+	}
+	for _, r := range *refs {
+		if _, ok := r.(*ssa.DebugRef); ok || r == sortCall {
+			continue
+		}
+		if r.Block() == sb {
+			if idx[r] < idx[sortCall] {
+				return false
+			}
+			continue
+		}
+		if !sb.Dominates(r.Block()) {
+			return false
+		}
+	}
+	return true
 }
 
 // globalWritten: some function of the module other than the package initialiser stores to g or updates the map it holds.
